@@ -51,6 +51,7 @@ func main() {
 		sim := fs.String("sim", "", "glob of TLC -simulate files")
 		out := fs.String("out", "beh", "output prefix (<prefix>.<shard>.beh)")
 		shards := fs.Int("shards", 1, "number of behaviour files")
+		chunk := fs.Int("chunk", 0, "max behaviours per file (0 = unlimited): more files than -shards when needed")
 		seed := fs.Int64("seed", 1, "seed")
 		maxlen := fs.Int("maxlen", 40, "max steps per behaviour (graph tours)")
 		limit := fs.Int("limit", 0, "max behaviours (0 = all; a seeded sample otherwise)")
@@ -77,10 +78,14 @@ func main() {
 			rng.Shuffle(len(behs), func(i, j int) { behs[i], behs[j] = behs[j], behs[i] })
 			behs = behs[:*limit]
 		}
-		if _, err := engine.WriteBehaviours(*out, behs, *shards); err != nil {
+		nfiles := *shards
+		if *chunk > 0 && (len(behs)+*chunk-1) / *chunk > nfiles {
+			nfiles = (len(behs) + *chunk - 1) / *chunk
+		}
+		if _, err := engine.WriteBehaviours(*out, behs, nfiles); err != nil {
 			die(2, "write behaviours: %v", err)
 		}
-		b, _ := json.Marshal(map[string]int{"graph_nodes": nodes, "graph_edges": edges, "behaviours_total": total, "behaviours_selected": len(behs)})
+		b, _ := json.Marshal(map[string]int{"graph_nodes": nodes, "graph_edges": edges, "behaviours_total": total, "behaviours_selected": len(behs), "files": nfiles})
 		fmt.Println(string(b))
 	case "replay":
 		fs := flag.NewFlagSet("replay", flag.ExitOnError)
